@@ -1,6 +1,7 @@
 import EinxModel.Props.C08b
 import EinxModel.Proofs.DenoteDotPerm
 import EinxModel.Proofs.DenoteConcatLaws
+import EinxModel.Proofs.DenoteViewOK
 /-!
 C08 (continued) — the open issues of work package c08, closed by work package c08c.  All laws are about the executable
 loop forms `Denote.denoteDot`, `Denote.denoteElementwise`, `Denote.denoteId` (the functions the driver runs and the
@@ -515,5 +516,19 @@ example :
     ∃ plan, planInstr [shapeOf e] (.transpose 0 [2, 0, 1]) = .ok plan ∧ plan.shape = shapeOf e' ∧
       (okOpt (denoteId [e'] outs)).map (List.map (substT [⟨plan.shape, plan.cells⟩])) = okOpt (denoteId [e] outs) :=
   denoteId_permute_input_concat_partial _ _ _ [2, 0, 1] (by decide +kernel) rfl rfl (by decide +kernel)
+
+/-- **Every virtual tensor enumerated for a solved expression is well formed** (a chosen block `off o d t` of a
+concatenation fits: `o + d.size ≤ t`, also for nested concatenations): the `viewOKL` conjunct of `viewsSideB` always holds;
+what remains of `viewsSideB` is the consistency of leaf sizes. -/
+theorem views_wellformed (e : Expr) : (views e).all Dim.viewOKL = true := by
+  simp only [List.all_eq_true]
+  exact views_viewOK e
+
+/-- Non-vacuity: `a ((b + (c + d)) e)` has three virtual tensors (a nested concatenation inside a group), none of them
+concatenation-free in the sense of `Dim.concatFreeL` (they contain chosen blocks), all of them well formed. -/
+example :
+    let e := Expr.list [.axis "a" 2, .flat (.list [.concat [.axis "b" 1, .concat [.axis "c" 2, .axis "d" 3]], .axis "e" 2])]
+    (views e).length = 3 ∧ (views e).all (fun v => !Dim.concatFreeL v) = true ∧ (views e).all Dim.viewOKL = true := by
+  decide +kernel
 
 end Einx.C08c
